@@ -5,8 +5,11 @@
 (* labelled, with break/continue), alone and between other statements.     *)
 (* For every list of the family the algorithm of pratt.go and the          *)
 (* declarative definition give the same statements and the same trees,     *)
-(* also in the infix-free form.  The family is a constant set; TLC         *)
-(* evaluates the ASSUME.                                                   *)
+(* also in the infix-free form.  The arms of if/else are blocks or, without *)
+(* braces, one expression (nil, 'c', 5ULL among the operands) or one       *)
+(* break/continue statement; a statement that follows break/continue by    *)
+(* mere juxtaposition (a newline in the text) is not its label.  The       *)
+(* family is a constant set; TLC evaluates the ASSUME.                     *)
 (***************************************************************************)
 EXTENDS Pratt, TLC
 
@@ -37,8 +40,33 @@ ForLists ==
              i \in Clauses, t \in Conds2 \cup {<<>>}, p \in Clauses, b \in {Blk2, Empty} }
     \cup { << <<"label", "outer">>, K("for")>> \o c \o << <<"block", <<K("continue"), <<"sym", "outer">> >> >> >> : c \in FConds }
     \cup { <<K("for")>> \o c \o << <<"block", <<K("break")>> >> >> : c \in FConds }
-Around(l) == { l, <<A, Op("="), I1>> \o l \o <<A>>, <<A, <<"semi">> >> \o l \o << <<"semi">>, A, Op("++")>> }
-StmtLists == UNION { Around(l) : l \in IfLists \cup ForLists }
+(* arms without braces *)
+Nil == <<"nil">>
+Chr == <<"chr", 120>>
+U64 == <<"uint", "5">>
+Cll == <<"call", "t", <<I1>> >>
+Out == <<"sym", "outer">>
+Arms == { <<B, Op("="), I1>>, <<B>>, <<Nil>>, <<Chr>>, <<U64, Op("+"), B>>, <<Cll>>, <<I1>>,
+          <<K("continue")>>, <<K("break")>>, <<K("continue"), Out>>, <<B, Op("++")>> }
+UConds == { <<A>>, <<A, Op(">"), I1>>, <<Op("not"), A>>, <<A, Op("=="), Nil>>, <<Blk>> }
+UIfLists ==
+    { <<K("if")>> \o c \o x : c \in UConds, x \in Arms }
+    \cup { <<K("if")>> \o c \o x \o <<K("else")>> \o y : c \in Conds2, x \in Arms, y \in Arms \cup {<<Blk2>>} }
+    \cup { <<K("if")>> \o c \o <<Blk, K("else")>> \o y : c \in UConds, y \in Arms }
+    \cup { <<K("if")>> \o c \o x \o <<K("else"), K("if")>> \o d \o y \o <<K("else")>> \o z :
+             c \in Conds2, d \in Conds2, x \in Arms, y \in {<<B>>, <<K("break")>>, <<Blk>>}, z \in {<<Nil>>, <<K("continue")>>} }
+(* loops whose body holds break/continue without braces, followed by other statements *)
+CtlBodies == { <<K("if"), A, Op("=="), I1, k>> \o nxt : k \in {K("continue"), K("break")},
+                  nxt \in { <<B, Op("+="), A>>, <<K("else"), B, Op("+="), A>>, <<B, <<"idx", <<I1>> >>, Op("="), A>>,
+                            <<B, Op("++")>>, <<Cll>>, << <<"semi">>, B>>, <<Out, B, Op("+="), A>> } }
+             \cup { <<A, Op("++"), K("if"), A, Op(">"), I1, K("break"), B, Op("+="), A>>,
+                    <<Cll, K("continue"), B, Op("+="), A>> }
+CtlForLists == { << <<"label", "outer">>, K("for"), A, Op("<"), I1, <<"block", b>> >> : b \in CtlBodies }
+                \cup { <<K("for"), <<"block", b>> >> : b \in CtlBodies }
+
+Around(l) == { l, <<A, Op("="), I1>> \o l \o <<A>>, <<A, <<"semi">> >> \o l \o << <<"semi">>, A, Op("++")>>,
+               l \o <<A, Op("+="), I1>> }
+StmtLists == UNION { Around(l) : l \in IfLists \cup ForLists \cup UIfLists \cup CtlForLists }
 
 ASSUME \A l \in StmtLists :
           /\ InDomain(l)
